@@ -891,6 +891,10 @@ func Run(r *vk.Run) {
 		i := i
 		r.Guard(map[string]any{"scan_held_case": i}, func() { runFullScanHeld(r, keys, i) })
 	}
+	for i := 0; i < r.N(6, 24); i++ {
+		i := i
+		r.Guard(map[string]any{"state_ahead_case": i}, func() { runFullStateAheadWindow(r, keys, i) })
+	}
 }
 
 // waitD waits (generously) until the reported DA-included height equals want. It returns false if that does not
